@@ -3,12 +3,14 @@ prefix, and the length-<=4 sweep. One integer decides everything:
 run seed = sha256(VERIF_SEED | stratum | run_index); all choices below come
 from `random.Random(run seed)`; numpy's global RNG is never used.
 """
+import copy
 import hashlib
 import random
 
 from . import ops as O
 from . import sources
 from .engine import MAX_HANDLES, Sim, Violation, audit_steps
+from .inject import INJECTOR
 from .inject import TARGETS as INJECT_TARGETS
 
 FAST_QUERIES = list(O.QUERIES)
@@ -74,10 +76,26 @@ def gen_config(rng, spec):
     }
 
 
-def _fault_step(rng, cfg, hi):
+def _aimed_injection(rng, sim, hi, op):
+    """Aim the fault at a seam call that will actually happen: count the calls
+    the query makes on a throw-away deep copy of the handle first."""
+    fn = O.ALL_QUERIES[op][0]
+    trial = copy.deepcopy(sim.world[hi])
+    counts = INJECTOR.probe(lambda: fn(trial, sim.A, {"dir": "/simfs/probe"}))
+    live = sorted(t for t, n in counts.items() if n > 0)
+    if not live:
+        target = rng.choice(INJECT_TARGETS)
+        nth = 1
+    else:
+        target = rng.choice(live)
+        nth = rng.randint(1, counts[target]) if rng.random() < 0.7 else 1
+    return {"target": target, "nth": nth, "exc": rng.choice(["MemoryError", "MemoryError", "RuntimeError"])}
+
+
+def _fault_step(rng, cfg, hi, sim):
     kind = rng.choice(cfg["fault_kinds"])
     if kind == "raiser":
-        return {"h": hi, "op": rng.choice(sorted(O.RAISERS))}
+        return {"h": hi, "op": rng.choice(sorted(O.RAISERS) + ["toX"])}
     if kind == "wfail":
         return {
             "h": hi,
@@ -86,15 +104,8 @@ def _fault_step(rng, cfg, hi):
             "when": rng.choice(["before", "after"]),
             "errno": rng.choice(["ENOSPC", "EACCES", "EIO"]),
         }
-    return {
-        "h": hi,
-        "op": rng.choice(cfg["queries"]),
-        "inject": {
-            "target": rng.choice(INJECT_TARGETS),
-            "nth": rng.choice([1, 1, 1, 2, 2, 3, 4, 6]),
-            "exc": rng.choice(["MemoryError", "MemoryError", "RuntimeError"]),
-        },
-    }
+    op = rng.choice(cfg["queries"])
+    return {"h": hi, "op": op, "inject": _aimed_injection(rng, sim, hi, op)}
 
 
 def choose_step(rng, cfg, fb, sim):
@@ -116,7 +127,7 @@ def choose_step(rng, cfg, fb, sim):
         return {"h": hi, "op": rng.choice(sorted(O.FORKS))}
     r -= cfg["p_fork"]
     if r < cfg["p_fault"]:
-        return _fault_step(rng, cfg, hi)
+        return _fault_step(rng, cfg, hi, sim)
     pool = list(cfg["queries"]) + list(cfg["slow"])
     h = sim.world[hi]
     if "cif_data" in h.properties and rng.random() < 0.3:
@@ -232,6 +243,74 @@ def template_run(verif_seed, index, stratum="template"):
             rest = [{"h": 0, "op": m} for m in tail] + [{"h": 0, "op": q2}]
             rest += audit_steps(1, rng.sample(FAST_QUERIES, 4 if is_large(spec) else 6))
             state["rest"] = iter(rest)
+        return next(state["rest"], None)
+
+    return _drive(spec, A, stratum, index, producer)
+
+
+# ------------------------------------------------- fault-point templates
+INJECT_SOURCES = [
+    {"kind": "file", "name": "acetic_acid.cif"},
+    {
+        "kind": "synthetic", "content": "co", "sg": [148, "H"],
+        "cell": [12.0, 12.0, 9.5, 90.0, 90.0, 120.0],
+        "elements": ["C", "O", "O", "H", "H"],
+        "frac": [[0.21, 0.13, 0.37], [0.30, 0.15, 0.41], [0.58, 0.40, 0.12],
+                 [0.64, 0.44, 0.17], [0.52, 0.43, 0.16]],
+        "occupation": None, "via": "cif",
+    },
+    {
+        "kind": "synthetic", "content": "co", "sg": [2, ""],
+        "cell": [8.0, 9.0, 10.0, 90.0, 90.0, 90.0],
+        "elements": ["C", "O", "O", "H", "H"],
+        "frac": [[0.7, 0.6, 0.65], [0.841, 0.6, 0.65], [0.2, 0.2, 0.2],
+                 [0.319625, 0.2, 0.2], [0.17, 0.303, 0.2]],
+        "occupation": None, "via": None,
+    },
+]  # fmt: skip
+INJECT_NTH = ["first", "last"]
+N_INJECT_TEMPLATES = len(INJECT_SOURCES) * len(FAST_QUERIES) * len(INJECT_TARGETS) * len(INJECT_NTH)
+
+
+def inject_template_of(index):
+    i = index % N_INJECT_TEMPLATES
+    i, k = divmod(i, len(INJECT_NTH))
+    i, t = divmod(i, len(INJECT_TARGETS))
+    i, q = divmod(i, len(FAST_QUERIES))
+    return INJECT_SOURCES[i % len(INJECT_SOURCES)], FAST_QUERIES[q], INJECT_TARGETS[t], INJECT_NTH[k]
+
+
+def inject_template_run(verif_seed, index, stratum="inject", nth_override=None):
+    """A query fails at a chosen seam call (first / last call of that seam, or
+    an explicit position); afterwards the same query, the label-strict
+    composite and a small audit must still match a fresh crystal."""
+    rng = random.Random(run_seed(verif_seed, stratum, index))
+    spec, op, target, which = inject_template_of(index)
+    A = gen_args(rng)
+    q0 = rng.choice([None, None, "uc_atoms", "uc_mols", "sym_mols"])
+    state = {"phase": 0, "rest": None}
+
+    def producer(sim, fb):
+        if state["phase"] == 0:
+            state["phase"] = 1
+            if q0:
+                return {"h": 0, "op": q0}
+        if state["phase"] == 1:
+            state["phase"] = 2
+            fn = O.ALL_QUERIES[op][0]
+            trial = copy.deepcopy(sim.world[0])
+            n = INJECTOR.probe(lambda: fn(trial, sim.A, {"dir": "/simfs/probe"}))[target]
+            if n == 0:
+                sim.stats["inject_template:seam_not_called"] += 1
+                return None
+            nth = nth_override if nth_override is not None else (1 if which == "first" else n)
+            if nth > n:
+                sim.stats["inject_template:seam_not_called"] += 1
+                return None
+            tail = [{"h": 0, "op": op}, {"h": 0, "op": "labelled_uc_mols"}]
+            tail += audit_steps(1, rng.sample(FAST_QUERIES, 4))
+            state["rest"] = iter(tail)
+            return {"h": 0, "op": op, "inject": {"target": target, "nth": nth, "exc": "MemoryError"}}
         return next(state["rest"], None)
 
     return _drive(spec, A, stratum, index, producer)
